@@ -984,6 +984,11 @@ def parse_template(path):
                 elif key in ("rewrite", "rewrite*"):
                     rule, frm, to = [x.strip() for x in val.split(" | ")]
                     spec["rewrites"].append((rule, frm.replace("\\n", "\n"), to, key.endswith("*")))
+                elif key in ("prewrite-re", "prewrite-re?"):
+                    # like rewrite-re, but applied BEFORE the automatic rules (R8 let-chain nesting, R15 ..): for a wrapper that
+                    # replaces a piece of a let-chain
+                    rule, frm, to = [x.strip() for x in val.split(" | ")]
+                    spec.setdefault("prewrites_re", []).append((rule, frm, to, key.endswith("?")))
                 elif key in ("rewrite-re", "rewrite-re?"):
                     rule, frm, to = [x.strip() for x in val.split(" | ")]
                     spec.setdefault("rewrites_re", []).append((rule, frm, to, key.endswith("?")))
@@ -1348,6 +1353,13 @@ def generate(unit, template_path, canary=False, extra_fns=(), drop_hints=()):
             if wh:
                 newsig += " " + wh.replace("\n", " ")
             # --- body rewrites
+            for rule, frm, to, optional in spec.get("prewrites_re", []):
+                new_body, cnt = re.subn(frm, to, body)
+                if cnt == 0 and not optional:
+                    raise AnchorLost(f"{where}: prewrite-re {rule} pattern not found: `{frm}`")
+                if cnt:
+                    g.rewrites.append({"rule": rule, "where": where, "before": "/" + frm + "/", "after": to, "count": cnt})
+                    body = new_body
             body = rule_R4(body, g.rewrites, where)
             if re.search(r"&&\s*let\b|\bif\s+let\b[^{;]*&&", mask_rust(body)):
                 body = rule_R8(body, g.rewrites, where)
